@@ -267,6 +267,44 @@ def big_plains(rng, quick):
     return out
 
 
+def maxgroups_plain():
+    """900000 bytes whose single level-9 block carries 900000 MTF symbols + EOB = 18001 coding groups (the format's maximum):
+    no four equal adjacent input bytes and no two adjacent zero MTF ranks after the BWT.  Deterministic; cached under .work/cache."""
+    import hashlib
+    path = os.path.join(vlib.WORK, "cache", "maxgroups_plain.bin")
+    if os.path.exists(path) and os.path.getsize(path) == 900000:
+        return open(path, "rb").read()
+    N = 900000
+    d = bytearray()
+    i = 0
+    while len(d) < N:
+        d += hashlib.sha256(b"lbzip2-verif-maxgroups" + i.to_bytes(8, "big")).digest()
+        i += 1
+    d = d[:N]
+
+    def no_quads():
+        for j in range(3, N):
+            if d[j] == d[j - 1] == d[j - 2] == d[j - 3]:
+                d[j] ^= 0x55
+    no_quads()
+    for _ in range(60):
+        dd = bytes(d) + bytes(d[:32])
+        sa = sorted(range(N), key=lambda j: dd[j:j + 16])
+        last = bytes(d[j - 1] for j in sa)
+        first = min(set(d))
+        zero = [last[0] == first] + [last[j] == last[j - 1] for j in range(1, N)]
+        bad = [j for j in range(1, N) if zero[j] and zero[j - 1]]
+        if not bad:
+            os.makedirs(os.path.dirname(path), exist_ok=True)
+            open(path, "wb").write(bytes(d))
+            return bytes(d)
+        for j in bad:
+            q = (sa[j] - 1) % N
+            d[q] = (d[q] + 0x6b) & 0xff
+        no_quads()
+    return bytes(d)
+
+
 # ---- independent optimum for C20: length-limited minimum redundancy code (package-merge) ----
 def optimal_limited_cost(freqs, maxlen):
     """minimum of sum f_i * l_i over complete prefix codes with all l_i in 1..maxlen (Larmore-Hirschberg)."""
